@@ -1,4 +1,5 @@
 import PV.Lemmas.IPCSysV
+import PV.Lemmas.IPCSysVSeg
 /-!
 # C07, System V variant — shared memory (`pshm-sysv.c` + `psemaphore-sysv.c` + key files over `PV.SysV.OS`)
 -/
@@ -43,6 +44,53 @@ theorem reported_size (req sz : Nat) :
   · split <;> rename_i h <;> simp at h <;> omega
   · intro h1 h2; simp [h1, h2]
   · intro h; split <;> rename_i h' <;> simp at h' <;> omega
+
+/-! ## 1b. one segment per name -/
+
+/-- All PShm handles of one name opened since the name's last creation refer to the same live segment — for EVERY schedule
+    (any interleaving of the system calls of any calls of any threads of any processes, SIGKILLs, EINTR) — under the explicit
+    hypotheses (a) inode numbers are not reused (`SegInv.bound.noreuse : g.os.reuse = false`, the oracle of finding F15) and
+    (b) no clean-up of the name reaches its IPC_RMID or its unlink in between (`SegQuietRun n g as`: under System V the LAST
+    detach of any handle removes the segment, and an owner's free unlinks the key file).  `SegInv n i sid`: key file `.shm n`
+    has inode `i`, whose key names the live, unmarked segment `sid`, nothing else refers to `i` / `sid`; every live PShm struct
+    of name `n` has `shm_hdl = sid`, every struct of another name a different id; every machine in flight (a `p_shm_new` /
+    `p_shm_free` between two of its system calls, its lock-semaphore sub-machine included) is consistent with that. -/
+theorem one_segment_per_name (n : Nat) (i : Ino) (sid : SegId) (g : G) (as : List Action)
+    (h0 : SegInv n i sid g) (hq : SegQuietRun n g as) : SegInv n i sid (execAll g as) :=
+  seginv_execAll n i sid as g h0 hq
+
+/-- … hence any two live handles of the name (in any processes) carry the id of one live segment, which the key file still names -/
+theorem same_segment (n : Nat) (i : Ino) (sid : SegId) (g : G) (h1 h2 : Hid) (p1 p2 : Pid) (m1 m2 : PShm)
+    (hi : SegInv n i sid g) (e1 : g.hs h1 = some (p1, .shm m1)) (e2 : g.hs h2 = some (p2, .shm m2)) (n1 : m1.name = n) (n2 : m2.name = n) :
+    m1.hdl = some sid ∧ m2.hdl = some sid ∧ (g.os.segs sid).alive = true ∧
+    (g.os.files (.shm n)).bind (fun j => g.os.shmKeys (ftokOf j)) = some sid := by
+  have a1 := (hi.hs h1 p1 _ e1).1
+  have a2 := (hi.hs h2 p2 _ e2).1
+  simp only [n1, n2, if_true] at a1 a2
+  exact ⟨a1, a2, hi.bound.alive, by simp [hi.bound.file, hi.bound.key]⟩
+
+/-- the address of a handle is an attachment of its process to the segment its `shm_hdl` names (what `shmat (shm_hdl)` returned).
+    NOTE: established by the `shmat` step of `p_shm_new`; its preservation over arbitrary action lists (address freshness and
+    distinctness per process) is NOT proved here — it is an explicit hypothesis of the next theorem. -/
+def Attached (g : G) (p : Pid) (m : PShm) : Prop :=
+  ∃ a att, m.addr = .at a ∧ findAtt (g.os.procs p) a = some att ∧ m.hdl = some att.seg
+
+/-- same bytes through all handles of the name: under the invariant, a store through any live handle of the name that does not
+    fault is what a load through any other live handle of the name (any process) returns at that offset — provided both
+    handles' addresses are attachments to the segment their `shm_hdl` names (`Attached`, see the note there) -/
+theorem same_name_same_bytes_sysv (n : Nat) (i : Ino) (sid : SegId) (g : G) (h1 h2 : Hid) (p1 p2 : Pid) (m1 m2 : PShm)
+    (a1 a2 off : Nat) (b : UInt8) (os' : OS)
+    (hi : SegInv n i sid g) (e1 : g.hs h1 = some (p1, .shm m1)) (e2 : g.hs h2 = some (p2, .shm m2)) (n1 : m1.name = n) (n2 : m2.name = n)
+    (t1 : Attached g p1 m1) (t2 : Attached g p2 m2) (ha1 : m1.addr = .at a1) (ha2 : m2.addr = .at a2)
+    (hst : g.os.store p1 a1 off b = some os') : os'.load p2 a2 off = .val b := by
+  obtain ⟨s1, s2, _, _⟩ := same_segment n i sid g h1 h2 p1 p2 m1 m2 hi e1 e2 n1 n2
+  obtain ⟨b1, x, hb1, hx, hxs⟩ := t1
+  obtain ⟨b2, y, hb2, hy, hys⟩ := t2
+  rw [ha1] at hb1; rw [ha2] at hb2
+  cases hb1; cases hb2
+  rw [s1] at hxs; rw [s2] at hys
+  exact same_segment_same_bytes g.os os' p1 p2 a1 a2 off b x y hx hy
+    ((Option.some.inj hxs).symm.trans (Option.some.inj hys)) hst
 
 /-! ## 2. the lock -/
 
@@ -180,6 +228,42 @@ theorem crash_recoverable_scope :
   decide
 
 /-! ## non-vacuity -/
+
+/-- a state with name m0 bound (inode 1, key 1 = segment 0 of 4 bytes) and two attached handles in two processes, written out -/
+def segDemo : G :=
+  { os := { OS.init with files := fun g => if g = .shm 0 then some 1 else none, nextIno := 2,
+                         shmKeys := fun k => if k = 1 then some 0 else none,
+                         segs := fun j => if j = 0 then { bytes := [0, 0, 0, 0], nattch := 2, alive := true } else {}, nextSeg := 1,
+                         procs := fun _ => { atts := [⟨1, 0, false⟩], nextAddr := 2 } },
+    pidOf := id,
+    hs := fun h => if h = 0 then some (0, .shm { name := 0, hdl := some 0, addr := .at 1, size := 4, ro := false })
+                   else if h = 1 then some (1, .shm { name := 0, hdl := some 0, addr := .at 1, size := 4, ro := false }) else none,
+    calls := fun _ => none, ret := fun _ => none, log := [] }
+
+/-- the hypotheses of `one_segment_per_name` / `same_segment` / `same_name_same_bytes_sysv` are satisfiable -/
+example : SegInv 0 1 0 segDemo ∧ SegQuietRun 0 segDemo [.kill 2] ∧
+    Attached segDemo 0 { name := 0, hdl := some 0, addr := .at 1, size := 4, ro := false } ∧ (segDemo.os.store 0 1 2 9).isSome = true := by
+  refine ⟨⟨⟨rfl, rfl, rfl, rfl, by decide, ?_, ?_, by decide, rfl⟩, ?_, ?_⟩, ⟨?_, trivial⟩, ⟨1, ⟨1, 0, false⟩, rfl, rfl, rfl⟩, by decide⟩
+  · intro k hk
+    simp only [segDemo] at hk
+    split at hk
+    · assumption
+    · cases hk
+  · intro g hg
+    simp only [segDemo] at hg
+    split at hg
+    · assumption
+    · cases hg
+  · intro h p x hx
+    simp only [segDemo] at hx
+    split at hx
+    · simp only [Option.some.injEq, Prod.mk.injEq] at hx; rw [← hx.2]; exact ⟨by simp, by intro ps e; cases e⟩
+    · split at hx
+      · simp only [Option.some.injEq, Prod.mk.injEq] at hx; rw [← hx.2]; exact ⟨by simp, by intro ps e; cases e⟩
+      · cases hx
+  · intro t c hc; cases hc
+  · intro t c hc; cases hc
+
 
 set_option maxRecDepth 100000 in
 /-- the hypotheses of `lock_is_mutex_partial` / `same_segment_same_bytes` are met by the model's own states -/
